@@ -52,6 +52,12 @@ BASE = [
     ("python_version", "<", "4.0"), ("python_full_version", ">=", "3.10"),
 ]
 REFL = M.REFLECT
+# atom pools of one history: related atoms (same variable, bounds one ~= step apart, X.Y / X.Y.0 twins) so that
+# merges produce equal-but-differently-spelled results and cache keys collide
+FAMILIES = [
+    [21, 16, 17, 20], [17, 18, 19, 16], [0, 1, 2, 3], [2, 3, 15, 16], [17, 21, 16], [0, 4, 5, 1], [19, 18, 21, 20, 16],
+    [6, 7, 8, 14], [9, 10, 6, 8], [11, 12, 6], [6, 8, 9, 0], [13, 0, 6],
+]
 
 
 def render_atom(base_id: int, variant: int) -> str:
@@ -61,8 +67,8 @@ def render_atom(base_id: int, variant: int) -> str:
     if variant == 2:
         if v == "python_full_version" and val.count(".") < 2:
             return f'{v} {op} "{val}.0"'
-        if v == "python_version" and op in (">=", "<") and val.count(".") == 1:
-            return f"{v} {op} '{val}'"
+        if v == "python_version" and val.count(".") == 1:
+            return f'{v} {op} "{val}.0"'  # equal version, other spelling
         if v == "extra":
             return f'{v} {op} "{val.replace("-", "_").title()}"'
         return f"{v} {op} '{val}'"
@@ -205,7 +211,7 @@ def make_machine(acc, max_steps):
             self.results = []
             self.warm = []
 
-        @initialize(pool=st.lists(st.sampled_from(range(len(BASE))), min_size=3, max_size=6, unique=True))
+        @initialize(pool=st.one_of(st.sampled_from(FAMILIES), st.sampled_from(FAMILIES), st.lists(st.sampled_from(range(len(BASE))), min_size=3, max_size=6, unique=True)))
         def choose_pool(self, pool):
             # a small atom pool per history, so that cache keys collide
             self.pool = pool
